@@ -4,6 +4,8 @@ package interp
 
 import (
 	"fmt"
+	"go/token"
+	"os"
 	"strings"
 )
 
@@ -57,6 +59,8 @@ type pathState struct {
 	concNondet []int32
 	concNI     int
 	nondet     []int32 // non-data decisions in order (recorded)
+	interp   *interpreter
+	trail    []string
 	lenCache map[string]*sym
 	lenAtoms [][2]string
 	panicSite string
@@ -182,7 +186,24 @@ func (p *pathState) decideK(kind byte, conds []string) int {
 	return first
 }
 
+var trailOn = os.Getenv("GOSMT_TRAIL") != ""
+
 func (p *pathState) take(kind byte, c int, cond string) {
+	if trailOn && p.interp != nil && p.interp.curFr != nil {
+		fr := p.interp.curFr
+		pos := token.NoPos
+		if fr.cur != nil {
+			pos = fr.cur.Pos()
+		}
+		w := fr.fn.String() + loc(fr.fn.Prog.Fset, pos)
+		if fr.caller != nil && pos == token.NoPos {
+			w += " <- " + fr.caller.fn.String()
+		}
+		if len(cond) > 80 {
+			cond = cond[:80]
+		}
+		p.trail = append(p.trail, fmt.Sprintf("%c%d %s  [%s]", kind, c, w, cond))
+	}
 	p.taken = append(p.taken, int32(c))
 	p.kinds = append(p.kinds, kind)
 	if kind != dBranch && kind != dIndex {
